@@ -222,6 +222,38 @@ func VC31_TwoNeighbors() {
 	vAssert(c31LSPNeighbors(srv) == want, "C31.two.lsp")
 }
 
+// flapping: after the adjacency came Up, three further hellos with symbolic three-way TLVs arrive; after each the state
+// is decided by the most recent hello that carried a TLV (Up iff it lists this system and circuit) and the regenerated
+// LSP follows — in particular the adjacency comes Up again after having gone Down.
+func VC31_Flap() {
+	srv, ifa := c31Setup()
+	src := ethernet.MACAddr{0, 1, 2, 3, 4, 5}
+	hold := uint16(ndU8())
+	vAssume(hold >= 2)
+	ifa.processP2PHello(src, c31Hello(1, hold, 2, c31Own, 7))
+	vSettle()
+	ifa.processP2PHello(src, c31Hello(1, hold, 2, c31Own, 7))
+	vSettle()
+	_, st := c31State(srv, 1)
+	up := st == packet.P2PAdjStateUp
+	vAssert(up, "C31.flap.up.first")
+	for round := 0; round < 3; round++ {
+		sys := types.SystemID{ndU8(), 2, 3, 4, 5, 6}
+		circuit := ndU32()
+		mode := vChoice(3)
+		ifa.processP2PHello(src, c31Hello(1, hold, mode, sys, circuit))
+		vSettle()
+		if mode != 0 {
+			up = mode == 2 && sys == c31Own && circuit == 7
+		}
+		found, st := c31State(srv, 1)
+		vAssert(found, "C31.flap.known")
+		vAssert((st == packet.P2PAdjStateUp) == up, "C31.flap.last.tlv.decides")
+		vAssert((c31LSPNeighbors(srv) == 1) == up, "C31.flap.lsp.follows")
+	}
+	vReach("flap")
+}
+
 func VC31_Twin() {
 	_, _ = c31Setup()
 	vAssert(false, "C31.twin")
